@@ -22,11 +22,13 @@ func VfC08_ParseLocals() {
 		}
 		return implicit
 	}
-	src := "declare i32 @g()\ndeclare void @v()\n" +
+	src := "declare i32 @g()\ndeclare void @v()\ndeclare void @w(i32)\ndeclare void @va(i32, ...)\n" +
 		"define i32 @f(i32" + ex(0, " %0", "") + ", i32" + ex(1, " %1", "") + ") {\n" +
 		ex(2, "2:\n", "") +
 		"\t" + ex(3, "%3 = ", "") + "add i32 %0, %1\n" +
 		"\tcall void @v()\n" +
+		"\tcall void (i32) @w(i32 %0)\n" + // full function type in front of the callee: still void
+		"\tcall void (i32, ...) @va(i32 %0, i32 %1)\n" +
 		"\t" + ex(4, "%4 = ", "") + "call i32 @g()\n" +
 		"\tbr label %5\n" +
 		"5:\n" +
@@ -39,10 +41,10 @@ func VfC08_ParseLocals() {
 	if err != nil {
 		return
 	}
-	f := m.Funcs[2]
+	f := m.Funcs[4]
 	b0, b1 := f.Blocks[0], f.Blocks[1]
 	add := b0.Insts[0].(*ir.InstAdd)
-	call := b0.Insts[2].(*ir.InstCall)
+	call := b0.Insts[4].(*ir.InstCall)
 	mul := b1.Insts[0].(*ir.InstMul)
 	vfAssert("C08.parse.binds.params", vfAnd(add.X == value.Value(f.Params[0]), add.Y == value.Value(f.Params[1])))
 	vfAssert("C08.parse.binds.insts", vfAnd(mul.X == value.Value(add), mul.Y == value.Value(call)))
